@@ -53,6 +53,9 @@ theorem step_sget_other (F : List Char → Option Rat) (s : State) (op : Op) (n 
     exact computeMetric_sget_other _ _ _ _ _ _ (by intro e; exact hn (by simp [Op.writes, Op.stores, e]))
   | addMetric name vals =>
     exact addMetric_sget_other _ _ _ _ (by intro e; exact hn (by simp [Op.writes, Op.stores, e]))
+  | addFromInt name src =>
+    exact addFromInt_preserves (fun u => sget u.metrics n = sget s.metrics n) _ _ _ rfl
+      (fun _ => addMetric_sget_other _ _ _ _ (by intro e; exact hn (by simp [Op.writes, Op.stores, e])))
   | computeTimings =>
     simp only [Op.writes, Op.stores, List.mem_cons, List.not_mem_nil, or_false, not_or] at hn
     apply seqOps_sget
@@ -108,6 +111,7 @@ theorem step_sel_other (F : List Char → Option Rat) (s : State) (op : Op) (hp 
   cases op with
   | computeMetric name vals f mode => exact hcm _ _ _ _ _
   | addMetric name vals => exact addMetric_sel _ _ _
+  | addFromInt name src => exact addFromInt_preserves (fun u => u.sel = s.sel) _ _ _ rfl (fun _ => addMetric_sel _ _ _)
   | computeTimings =>
     apply seqOps_preserves (fun t => t.sel = s.sel) _ _ s rfl
     intro o ho s' hs'
